@@ -115,6 +115,18 @@ class MemberView:
         )
 
 
+def _fingerprint(obj):
+    fp = {}
+    for k, v in vars(obj).items():
+        if isinstance(v, dict):
+            fp[k] = ("dict", id(v), tuple((repr(a), id(b)) for a, b in v.items()))
+        elif isinstance(v, (list, set)):
+            fp[k] = (type(v).__name__, id(v), tuple(id(b) for b in v))
+        else:
+            fp[k] = id(v)
+    return fp
+
+
 def shapes():
     return [(p, z, f) for p in PERIODS for z in (False, True) for f in (False, True)]
 
@@ -137,6 +149,7 @@ class ClimatologyCheck(Case):
         "post.missing_only_if_needed": ("C02",),
         "loop.members.establish.alphabet": ("C01",),
         "loop.members.preserve.alphabet": ("C01",),
+        "frame": ("C01",),
     }
     VIEW_PARTS = {
         "C08": ("fold", "alphabet"),
@@ -217,7 +230,21 @@ class ClimatologyCheck(Case):
             cfg._members = CutSeq(e.K, element, cut)
         else:
             cfg._members = [MemberView((m["period"], "zlo" in m, "flo" in m), conc=m).build(mod) if e.mode == "conc" else self._real_member(mod, m) for m in e.members]
-        return mod.climatology_test(cfg, e.x, e.t, e.z)
+        # frame of the parameter object: the configuration's attributes (and the containers they hold) are
+        # the same objects with the same content after the call
+        before = _fingerprint(cfg)
+        out = mod.climatology_test(cfg, e.x, e.t, e.z)
+        after = _fingerprint(cfg)
+        if before != after:
+            what = "ClimatologyConfig attribute(s) %s" % sorted(k for k in set(before) | set(after) if before.get(k) != after.get(k))
+            if e.mode == "real":
+                from pyvc.ctx import FrameViolation
+
+                raise FrameViolation("the call modified the parameter object: " + what)
+            from pyvc.ctx import cur
+
+            cur().notes.append(("frame-write", what))
+        return out
 
     def _real_member(self, mod, m):
         import numpy as np
@@ -267,7 +294,7 @@ class ClimatologyCheck(Case):
         days = [1577750400, 1577836800, 1582934400, 1592179200, 1609372800, 1609459200]  # 2019-12-31, 2020-01-01, 2020-02-29, 2020-06-15, 2020-12-31, 2021-01-01
         p, hz, hf = self.shape
 
-        def member(lo, hi):
+        def member(lo, hi, hz=hz, hf=hf):
             m = {"period": p, "vlo": 0, "vhi": 1}
             if p is None:
                 m["tlo"], m["thi"] = lo, hi
@@ -284,6 +311,10 @@ class ClimatologyCheck(Case):
             return m
 
         confs = [[], [member(days[1], days[3])], [member(days[1], days[3]), dict(member(days[4], days[3]), vlo=-5, vhi=-1)]]
+        # members of different shapes next to each other (what one member leaves behind must not leak into the next)
+        other = dict(member(days[1], days[3], hz=not hz), vlo=-5, vhi=-1)
+        otherf = dict(member(days[1], days[3], hf=not hf), vlo=2, vhi=5)
+        confs += [[member(days[1], days[3]), other], [other, member(days[1], days[3])], [member(days[1], days[3]), otherf], [otherf, member(days[1], days[3]), other]]
         n_max = 3 if tier == "quick" else 4
         for n in range(0, n_max + 1):
             for xs in itertools.product((-2, H, 3, None), repeat=n):
